@@ -20,6 +20,7 @@ import (
 	"golang.org/x/mod/sumdb/dirhash"
 	modzip "golang.org/x/mod/zip"
 
+	"verif/internal/coop"
 	"verif/internal/enum"
 	"verif/internal/fw"
 	"verif/internal/memfile"
@@ -35,6 +36,7 @@ type caseT struct {
 	Mod   string   `json:"module,omitempty"`
 	Ver   string   `json:"version,omitempty"`
 	Calls []string `json:"call_history,omitempty"`
+	Sched []int    `json:"interleaving,omitempty"`
 	Wd    string   `json:"working_directory,omitempty"` // \x00 stands for the scratch directory
 	Dir   string   `json:"directory_argument,omitempty"`
 }
@@ -321,6 +323,9 @@ func Run(r *fw.Run) {
 	// module archives
 	zipPart(r)
 
+	// overlapping calls: every interleaving of two Hash1 calls at their open/read callbacks
+	overlapPart(r)
+
 	// spellings of the directory argument, including the current directory (sequential: chdir is process wide)
 	dirPart(r)
 }
@@ -550,6 +555,55 @@ func historyPart(r *fw.Run) {
 	})
 }
 
+type yieldFirstRead struct {
+	io.ReadCloser
+	yield func()
+	did   bool
+}
+
+func (y *yieldFirstRead) Read(p []byte) (int, error) {
+	if !y.did {
+		y.did = true
+		y.yield()
+	}
+	return y.ReadCloser.Read(p)
+}
+
+// overlapCall runs menu entry i with an opener that lets the other call run before each open and before
+// the first read of each file.
+func overlapCall(menu []hcall, i int, yield func()) string {
+	c := menu[i]
+	files := append([]string(nil), c.files...)
+	h, err := dirhash.Hash1(files, func(n string) (io.ReadCloser, error) {
+		yield()
+		rc, err := c.open(n)
+		if err != nil {
+			return nil, err
+		}
+		return &yieldFirstRead{ReadCloser: rc, yield: yield}, nil
+	})
+	return fmt.Sprintf("%s err=%v", h, err)
+}
+
+func overlapPart(r *fw.Run) {
+	menu := historyMenu()
+	l := fw.NewLocal()
+	defer r.Merge(l)
+	call := func(i int, y func()) string { return overlapCall(menu, i, y) }
+	pairs, runs, capped := coop.Pairs(len(menu), call, nil, func(i, j int, sched []int, what string) {
+		r.Violation(fmt.Sprintf("overlap:%s:%s", menu[i].name, menu[j].name), fmt.Sprintf("Hash1 %s overlapped with Hash1 %s, interleaving %v: %s", menu[i].name, menu[j].name, sched, what), caseT{Kind: "overlap", Calls: []string{menu[i].name, menu[j].name}, Sched: sched})
+	}, 20000)
+	r.Bounds["overlapping_calls"] = fmt.Sprintf("%d ordered pairs of Hash1 calls from the history menu, every interleaving at open and first-read callbacks (cap 20000 per pair)", pairs)
+	if capped {
+		r.Cap("overlapping Hash1 calls: 20000 interleavings per pair reached")
+	}
+	l.States += int64(pairs)
+	l.Execs += int64(runs)
+	l.Transitions += int64(runs)
+	l.Nontrivial += int64(runs)
+	l.Outcomes["overlap:interleavings"] += int64(runs)
+}
+
 type zipSpec struct {
 	mod, ver string
 	files    []memfile.File
@@ -697,6 +751,33 @@ func Replay(r *fw.Run, raw json.RawMessage) {
 				r.Violation("history", msg, c)
 				return
 			}
+		}
+		return
+	}
+	if c.Kind == "overlap" && len(c.Calls) == 2 {
+		menu := historyMenu()
+		idx := func(n string) int {
+			for i, m := range menu {
+				if m.name == n {
+					return i
+				}
+			}
+			return 0
+		}
+		a, b := idx(c.Calls[0]), idx(c.Calls[1])
+		var ra, rb string
+		_, _, pan := coop.Run([]func(func()){
+			func(y func()) { ra = overlapCall(menu, a, y) },
+			func(y func()) { rb = overlapCall(menu, b, y) },
+		}, func(pt int, en []int) int {
+			if pt < len(c.Sched) && c.Sched[pt] < len(en) {
+				return c.Sched[pt]
+			}
+			return 0
+		})
+		sa, sb := overlapCall(menu, a, func() {}), overlapCall(menu, b, func() {})
+		if pan != nil || ra != sa || rb != sb {
+			r.Violation("overlap", fmt.Sprintf("overlapped: %q, %q (panic %v); alone: %q, %q", ra, rb, pan, sa, sb), c)
 		}
 		return
 	}
